@@ -21,11 +21,11 @@ CHECKS = {
    "float values outside the eight families are not enumerated; AVX2/FMA CPU",
    "bounded-exhaustive input enumeration (all lengths) against reference definitions", "DESIGN.md §4 C20"),
  "C01": (True, "seqx", "model_checking",
-   "Explicit-state breadth-first search over histories of insert/update/delete batches (25-symbol alphabet, depth 5 without indexes, depth 4 with the full seven-index schema, warm and reopened-after-every-batch instances, two start states) executed on the real shard; after every batch the returned error/ids, reported count, read of every id, select-all and the raw point-store/counter buckets are compared with a plain-map reference model. Complete within the alphabet and depth.",
+   "Explicit-state breadth-first search over histories of insert/update/delete batches (25-symbol alphabet, depth 5 without indexes, depth 4 with the full seven-index schema, warm and reopened-after-every-batch instances, two start states; plus every history of length <= 2 over bulk batches of 10000 points, the HTTP maximum per request) executed on the real shard; after every batch the returned error/ids, reported count, read of every id, select-all and the raw point-store/counter buckets are compared with a plain-map reference model. Complete within the alphabet and depth.",
    "documents outside the alphabet; the order in which freed node ids are reused (Go map iteration) is not enumerated; states reached through a failed multi-point batch on an indexed schema are checked but not expanded (known finding F4 makes their futures schedule-dependent)",
    "explicit-state BFS over operation histories of the real code vs reference model", "DESIGN.md §4 C01"),
  "C02": (True, "seqx", "model_checking",
-   "(A) the complete operator x boundary-value (x end value) query space for case-sensitive/-insensitive string, string-array, integer, float and nested-path indexes plus all _and/_or trees of depth<=2 over a 6-leaf pool on a fixed 13-point data set; (B) breadth-first search to depth 5 (thorough 8, with state de-duplication on the full bucket contents) over write histories that insert, change, remove, re-add and delete indexed fields and reuse node ids, with a ~400-query battery after every batch; both storage backends; every answer compared with direct evaluation of the predicate on the model documents.",
+   "(A) the complete operator x boundary-value (x end value) query space for case-sensitive/-insensitive string, string-array, integer, float and nested-path indexes plus all _and/_or trees of depth<=2 over a 6-leaf pool on a fixed 13-point data set; (W) ~1.6k range / comparison / prefix / containsAny queries on a 1200-point data set of pairwise distinct values, before and after deleting 300 points; (B) breadth-first search to depth 5 (thorough 8, with state de-duplication on the full bucket contents) over write histories that insert, change, remove, re-add and delete indexed fields and reuse node ids, with a ~400-query battery after every batch; both storage backends; every answer compared with direct evaluation of the predicate on the model documents.",
    "values outside the boundary alphabets; only queries that pass Validate(); NaN not stored",
    "explicit-state BFS over write histories + exhaustive query-space enumeration vs reference evaluation", "DESIGN.md §4 C02"),
  "C04": (True, "seqx", "model_checking",
